@@ -379,7 +379,7 @@ func extraC06(c *Ctx, r *Report) {
 		}
 		for _, cf := range normFacts(condFacts(in.Block())) {
 			bo, ok := cf.Cond.(*ssa.BinOp)
-			if !ok || bo.Op != token.EQL || !cf.True {
+			if !ok || !assertsEq(bo, cf.True) {
 				continue
 			}
 			if mentionsField(bo.X, pkgDomain, "Endpoint", "Priority", 3) && mentionsField(bo.Y, pkgDomain, "Endpoint", "Priority", 3) {
@@ -485,7 +485,7 @@ func extraC06(c *Ctx, r *Report) {
 					for _, ys := range iteratorYieldSites(c, e) {
 						for _, cf := range normFacts(condFacts(ys.Block())) {
 							bo, ok := cf.Cond.(*ssa.BinOp)
-							if !ok || bo.Op != token.EQL || !cf.True {
+							if !ok || !assertsEq(bo, cf.True) {
 								continue
 							}
 							if !mentionsField(bo.X, pkgDomain, "Endpoint", "Priority", 3) || !mentionsField(bo.Y, pkgDomain, "Endpoint", "Priority", 3) {
@@ -619,12 +619,12 @@ func extraBodyPreserver(c *Ctx, r *Report, rule string) {
 		key := fmt.Sprintf("%s:nil-bytes-return#%s", fname(preserver), retKey(c, preserver, ret))
 		absent := false
 		// `r.Body == nil || r.Body == http.NoBody` : the return block is entered from tests on Request.Body only
-		bodyTest := func(v ssa.Value) bool {
+		bodyTest := func(v ssa.Value, pol bool) bool {
 			bo, ok := v.(*ssa.BinOp)
-			return ok && bo.Op == token.EQL && mentionsField(bo.X, "net/http", "Request", "Body", 3)
+			return ok && assertsEq(bo, pol) && mentionsField(bo.X, "net/http", "Request", "Body", 3)
 		}
 		for _, cf := range normFacts(condFacts(ret.Block())) {
-			if cf.True && bodyTest(cf.Cond) {
+			if bodyTest(cf.Cond, cf.True) {
 				absent = true
 			}
 		}
@@ -632,7 +632,13 @@ func extraBodyPreserver(c *Ctx, r *Report, rule string) {
 			all := true
 			for _, p := range ret.Block().Preds {
 				ifi, ok := lastInstr(p).(*ssa.If)
-				if !ok || p.Succs[0] != ret.Block() || !bodyTest(ifi.Cond) {
+				if !ok {
+					all = false
+					continue
+				}
+				// the edge taken: true branch of `== nil`, or false branch of `!= nil`
+				onTrue := p.Succs[0] == ret.Block()
+				if !bodyTest(ifi.Cond, onTrue) {
 					all = false
 				}
 			}
